@@ -63,6 +63,7 @@ package dedup
 
 //@ func RequestCache.reserveWorker
 //@   requires c != nil
+//@   modifies sent(c.numWorkers)
 //@   ensures result == nil || result == ErrWorkersBusy
 
 //@ func RequestCache.releaseWorker
@@ -72,7 +73,7 @@ package dedup
 // token to the spawned goroutine.
 //@ func RequestCache.Start
 //@   requires rcshape(c) && r != nil
-//@   modifies map c.pending, map c.errors, c.lastClean, c.clk.now
+//@   modifies map c.pending, map c.errors, c.lastClean, c.clk.now, sent(c.numWorkers)
 //@   assert spawn_holds_token: at RequestCache.Start$1#0 :: (id in c.pending) && !old(id in c.pending)
 //@   assert worker_sought_with_token: at RequestCache.reserveWorker#0 :: (id in c.pending) && !old(id in c.pending)
 //@   ensures busy_leaves_nothing: result == ErrWorkersBusy ==> !(id in c.pending)
